@@ -70,7 +70,7 @@ type VerifyResult struct {
 // Verify generates the obligations of one function under its contract (nil = no contract: requires true).
 func (eng *Engine) Verify(fn *ssa.Function, spec *FuncSpec, tags map[string]bool) (res *VerifyResult) {
 	e := &Exec{eng: eng, s: newScript(), top: fn, topSpec: spec, compSort: map[string]string{}, callOrd: map[string]int{}, checkTags: tags,
-		usedSpecs: map[string]bool{}, inlined: map[string]bool{}, havocked: map[string]int{}}
+		usedSpecs: map[string]bool{}, inlined: map[string]bool{}, havocked: map[string]int{}, clauseHit: map[*Clause]bool{}}
 	res = &VerifyResult{}
 	if spec != nil && spec.IntMode == "math" {
 		e.s.mathInt = true
@@ -183,6 +183,16 @@ func (eng *Engine) Verify(fn *ssa.Function, spec *FuncSpec, tags map[string]bool
 		for _, o := range e.obls {
 			o.Observe = obs
 			o.ObservePrefix = n
+		}
+	}
+	if spec != nil {
+		for _, c := range spec.Clauses {
+			if c.Kind == KAtCallSet && !e.clauseHit[c] {
+				panic(fmt.Sprintf("%s:%d: call-site clause for %q never applied: no such call in %s (contract out of date?)", c.File, c.Line, c.Callee, res.Func))
+			}
+			if c.Kind == KAssertCall && !e.clauseHit[c] && e.wantClause(c) {
+				panic(fmt.Sprintf("%s:%d: call-site clause for %q never applied: no such call in %s (contract out of date?)", c.File, c.Line, c.Callee, res.Func))
+			}
 		}
 	}
 	res.Obls = e.obls
